@@ -25,13 +25,14 @@ type Escaping func(string) string
 func (e *Evaluator) Template(env envs.Environment, ctx *types.XObject, template string, escaping Escaping) (string, []string, error) {
 	var buf strings.Builder
 	var allWarnings []string
+	budget := maxEvaluationWork // shared by the expressions of the template
 
 	err := VisitTemplate(template, ctx.Properties(), true, func(tokenType XTokenType, token string) error {
 		switch tokenType {
 		case BODY:
 			buf.WriteString(token)
 		case IDENTIFIER, EXPRESSION:
-			value, warnings := e.Expression(env, ctx, token)
+			value, warnings := e.expression(env, ctx, token, &budget)
 
 			allWarnings = append(allWarnings, warnings...)
 
@@ -86,6 +87,11 @@ func (e *Evaluator) TemplateValue(env envs.Environment, ctx *types.XObject, temp
 // Expression evalutes the passed in Excellent expression, returning the typed value it evaluates to,
 // which might be an error, e.g. "2 / 3" or "contact.fields.age"
 func (e *Evaluator) Expression(env envs.Environment, ctx *types.XObject, expression string) (types.XValue, []string) {
+	budget := maxEvaluationWork
+	return e.expression(env, ctx, expression, &budget)
+}
+
+func (e *Evaluator) expression(env envs.Environment, ctx *types.XObject, expression string, budget *int) (types.XValue, []string) {
 	parsed, err := Parse(expression, nil)
 	if err != nil {
 		return types.NewXError(err), nil
@@ -93,7 +99,7 @@ func (e *Evaluator) Expression(env envs.Environment, ctx *types.XObject, express
 
 	scope := NewScope(ctx, nil)
 
-	warnings := &Warnings{}
+	warnings := &Warnings{budget: budget}
 
 	return parsed.Evaluate(env, scope, warnings), warnings.all
 }
